@@ -101,6 +101,9 @@ func (e *Engine) VerifyFunc(fc *FuncContract, fn *ssa.Function) (res *FuncResult
 	for _, c := range fc.Requires {
 		st.assume(e.evalBool(env, c))
 	}
+	for _, c := range fc.Defines {
+		st.assume(e.evalBool(env, c))
+	}
 	// vacuity guard: the precondition must be satisfiable
 	st.items = append(st.items, Item{Kind: ItOblig, Ob: &Oblig{Name: shortFn(fn) + "/requires-sat", Class: "requires-sat", Goal: "false", Pos: e.fset.Position(fn.Pos())}})
 	st.entry = st.snapshot()
